@@ -35,6 +35,7 @@ class Tracker:
         self.is_iter = is_iter_type
         self.member = member
         self.raisers = raisers
+        self.check_increment = False
         self.kids = children_of(funcs)
         self.summ = {}          # key(f) -> {var: (requires, ensures)}
         self.indirect = []      # (func, site, arg index, checked?) for calls through pointers to members
@@ -158,6 +159,9 @@ class Tracker:
                 v = self.var_of(f, n["args"][0])
                 if v is not None:
                     need_checked(st, v, sid, "dereferenced")
+                    if self.check_increment:
+                        # once dereferenced (the report, if any, is made), the iterator is taken to be valid: no second report downstream
+                        return ((checked | {v}, pristine, assume),)
                 return (st,)
             if k == "UnaryOperator" and n.get("op") == "*":
                 v = self.var_of(f, f.kids(sid)[0])
@@ -201,6 +205,10 @@ class Tracker:
                     mod = (v, n["op"], f.kids(sid)[1])
             if mod is not None:
                 v, op, rhs = mod
+                if op == "++" and self.check_increment and v not in checked and not (v in pristine and (v in tp or v == "M")) and ("next", v) not in checked:
+                    if report is not None and (sid, v, "inc") not in reported:
+                        reported.add((sid, v, "inc"))
+                        report("increment", f, sid, name_of(v), "incremented")
                 modified_ever.add(v)
                 pristine = pristine - {v}
                 back = False
@@ -246,6 +254,9 @@ class Tracker:
                     if a0["k"] == "DeclRefExpr" and a0.get("declId") in raisers:
                         cond = args[1]
                 if cond is not None:
+                    c0 = f.stmts.get(f.strip(cond))
+                    if c0 is not None and c0["k"] == "CXXBoolLiteralExpr" and c0.get("value"):
+                        return ()       # raise_if(true, ...) / throw_if(true, ...): never returns
                     fx = refine(f, cond, False, {}, atom)
                     for kx, vx in fx.items():
                         if vx is True and kx.startswith(("ne:", "nx:")):
